@@ -126,7 +126,8 @@ def stepInstr (s : St) (i : Instr) : Sum St End :=
      | .ok v vm =>
        let slat := ps.getD 0 0
        let offset : Int := if slat = 2 then s.ctx.map - 1 else 0
-       (match opAttrSet s.ctx slat offset.toNat (i16 (i32 (v + offset))) with
+       -- `subindex` is a uint8 parameter: an offset of -1 (map in front of the slot map after an insert) arrives as 255
+       (match opAttrSet s.ctx slat (offset % 256).toNat (i16 (i32 (v + offset))) with
         | .cont c => .inl { vm := { vm with dp := vm.dp + 1 }, ctx := c }
         | .died c => .inr (.normal { vm := vm, ctx := c })
         | .fault w => .inr (.fault w))
